@@ -16,7 +16,7 @@ from dsim.history import History, result_summary, RESULT_LISTS
 
 BAD_CALLS = ('get_twice', 'wrong_type', 'unknown_handle', 'mk_existing_ctx', 'add_existing_ctx_state',
              'add_existing_descr', 'remove_unknown_descr', 'get_state_without_descr', 'write_entity_twice', 'add_existing_single_state',
-             'add_ctx_state_foreign_handle', 'entity_ctx_state_foreign_handle')
+             'add_ctx_state_foreign_handle', 'entity_ctx_state_foreign_handle', 'write_entities_mixed_caught')
 
 
 class PreCommitBoom(Exception):
@@ -46,7 +46,7 @@ class C03(CheckBase):
     assumptions = ['crash points are the boundaries between API calls of the generated transaction body',
                    'post-commit state of a failed commit is judged against the transaction\'s own item list']
     expected_probes = ['crash_points', 'precommit_raise', 'bad_calls', 'iso_tx', 'iso_entity', 'iso_result',
-                       'iso_periodic', 'commits', 'iso_entity_updated']
+                       'iso_periodic', 'commits', 'iso_entity_updated', 'refusal_caught_in_body']
     exhaustive = None
 
     def budget(self, tier):
@@ -301,6 +301,7 @@ class C03(CheckBase):
         variant = op.get('bad')
         k = op['k']
         fired = []
+        caught = []  # [handle the refused call must not have touched] for variants that swallow the refusal in the body
 
         def hook(mgr):
             pm = mdib.data_model.pm_names
@@ -347,6 +348,24 @@ class C03(CheckBase):
                         ent = mdib.entities.by_handle(others[0].Handle)
                         ent.new_state(ex[0].Handle)
                         mgr.write_entity(ent, [ex[0].Handle])
+            elif variant == 'write_entities_mixed_caught' and k == 'state':
+                # the application hands write_entities a list whose LAST element is unacceptable, catches the refusal and
+                # goes on: the call as a whole has to be without effect (the acceptable first element is not committed)
+                mine = {it['h'] for it in op['items']}
+                good = [st for st in sorted(mdib.states.objects, key=lambda st: st.DescriptorHandle)
+                        if W.tt_of_state(st) == op['tt'] and st.DescriptorHandle not in mine]
+                bad = [st for st in sorted(mdib.states.objects, key=lambda st: st.DescriptorHandle)
+                       if W.tt_of_state(st) not in (op['tt'], None)]
+                if good and bad:
+                    e_good = mdib.entities.by_handle(good[0].DescriptorHandle)
+                    e_bad = mdib.entities.by_handle(bad[0].DescriptorHandle)
+                    fired.append(3)
+                    caught.append(good[0].DescriptorHandle)
+                    try:
+                        mgr.write_entities([e_good, e_bad])
+                        caught.append('ACCEPTED')
+                    except ApiUsageError:
+                        pass
             elif variant == 'add_existing_descr' and k == 'descr':
                 d = sorted(mdib.descriptions.objects, key=lambda x: x.Handle)[0]
                 fired.append(1)
@@ -400,6 +419,16 @@ class C03(CheckBase):
                 expect_unchanged(pre, 'rejected', op, nrep)
             return None
         ctx.probe('bad_calls')
+        if caught and not rejected and commit_failed is None:
+            ctx.probe('refusal_caught_in_body')
+            h = caught[0]
+            now = snap_all(mdib)
+            if 'ACCEPTED' not in caught and now['states'].get(h) != pre['states'].get(h):
+                d = canon.diff(pre['states'].get(h), now['states'].get(h))
+                ctx.violation('C03.atomic', f'refused-call-had-effect:{variant}',
+                              f'write_entities([{h}, <entity of another transaction type>]) raised ApiUsageError, the '
+                              f'application caught it and committed the rest - but {h} was committed too: {d[:4]}')
+            return 'committed'
         if rejected:
             expect_unchanged(pre, f'api-rejected:{variant}', op, nrep)
         elif commit_failed is not None:
